@@ -465,3 +465,26 @@ Section BodyOfSends.
     | _ => body_step st op
     end.
 End BodyOfSends.
+
+(* ---------- round 6: settings changed between two executions of one Request ---------- *)
+(* Request.unmergeClientSettings: the client cookies the previous execution appended at position
+   [pos] ([n] of them) are cut out, what the caller added behind them stays *)
+Definition unmerge_cookies {A} (pos n : nat) (cks : list A) : list A := firstn pos cks ++ skipn (pos + n) cks.
+(* the variant that truncates at the merge position *)
+Definition unmerge_cookies_truncating {A} (pos : nat) (cks : list A) : list A := firstn pos cks.
+
+(* handleMarshalBody: the content type that selects the marshaller - the request's own, else the client's *)
+Definition marshal_ct (rh ch : list kv) : bytes :=
+  let r := header_get rh content_type in if is_nil r then header_get ch content_type else r.
+(* the variant that asks the client first *)
+Definition marshal_ct_client_first (rh ch : list kv) : bytes :=
+  let c := header_get ch content_type in if is_nil c then header_get rh content_type else c.
+
+(* internal/http3 RoundTripOpt: a request that failed on a cached connection which turned out to be
+   closed is sent again AS IT IS (the same http.Request, its Body already consumed) when
+   isReplayable says so: no body, and an idempotent method or an idempotency key *)
+Definition h3_replayable (has_body idempotent : bool) : bool := negb has_body && idempotent.
+Definition h3_replayable_getbody (has_body has_getbody idempotent : bool) : bool :=
+  (negb has_body || has_getbody) && idempotent.
+(* what the replay carries: the body was consumed by the first attempt *)
+Definition h3_replay_body (body : bytes) : bytes := [].
